@@ -79,10 +79,60 @@ class Pipe:
     def __init__(self): self.to_switch = b""; self.to_ctl = b""
 
 
+class OddError(Exception):
+    """an exception class of the harness's own, with a text that is awkward to log or format"""
+    def __str__(self): return "défaut %s {} %d\nsecond line"
+
+
+def make_exc(sp):
+    """one concrete spelling of 'the send failed' (HARDENING 11).  Every one is an Exception; ctl-* spellings carry errno and strerror like a real socket error."""
+    import errno, socket
+    E = {"OSError": lambda: OSError(errno.EIO, "Input/output error"), "OSError-bare": lambda: OSError(), "IOError-text": lambda: IOError("tap write failed"),
+         "ENOBUFS": lambda: OSError(errno.ENOBUFS, "No buffer space available"), "ENETDOWN": lambda: OSError(errno.ENETDOWN, "Network is down"),
+         "EPIPE": lambda: BrokenPipeError(errno.EPIPE, "Broken pipe"), "ECONNRESET": lambda: ConnectionResetError(errno.ECONNRESET, "Connection reset by peer"),
+         "EAGAIN": lambda: OSError(errno.EAGAIN, "Resource temporarily unavailable"), "BlockingIOError": lambda: BlockingIOError(errno.EAGAIN, "Resource temporarily unavailable"),
+         "EWOULDBLOCK": lambda: socket.error(errno.EWOULDBLOCK, "Operation would block"),
+         "timeout": lambda: socket.timeout("timed out"), "RuntimeError": lambda: RuntimeError("send failed"), "ValueError": lambda: ValueError(""),
+         "KeyError": lambda: KeyError(3), "TypeError": lambda: TypeError("%s"), "AssertionError": lambda: AssertionError(), "AttributeError": lambda: AttributeError("fileno"),
+         "StopIteration": lambda: StopIteration(), "MemoryError": lambda: MemoryError(), "OddError": lambda: OddError()}
+    return E[sp]()
+
+
+DP_SPELLINGS = ["OSError", "RuntimeError", "EPIPE", "OSError-bare", "IOError-text", "ENOBUFS", "ENETDOWN", "ECONNRESET", "EAGAIN", "timeout", "ValueError", "KeyError",
+                "TypeError", "AssertionError", "AttributeError", "StopIteration", "MemoryError", "OddError", "BlockingIOError"]
+CTL_DELAY = ["EAGAIN", "BlockingIOError", "EWOULDBLOCK", "short0", "short1", "short8", "short-1"]      # the write is late, nothing is lost
+CTL_FATAL = ["EPIPE", "ECONNRESET", "ENOBUFS", "OSError", "ENETDOWN"]                                   # the controller gives the connection up
+
+
+class LiveDeferred:
+    """of_01's deferred sender with its real contract (HARDENING 21) but no thread: data a socket did not take is kept IN ORDER, while anything is
+    queued `sending` is true (so later sends queue up behind it instead of overtaking), and the queue is written out when the harness pumps."""
+    def __init__(self): self.q = []
+    @property
+    def sending(self): return bool(self.q)
+    def send(self, con, data): self.q.append((con, bytes(data)))
+    def kill(self, con): self.q = [(c, d) for c, d in self.q if c is not con]
+    def flush(self):
+        q, self.q = self.q, []
+        for con, d in q:
+            if not getattr(con, "disconnected", False): con.sock.send(d)
+        return bool(q)
+
+
 class CtlSock:
-    """what of_01.Connection reads from / writes to"""
-    def __init__(self, p): self.p = p
-    def send(self, d): self.p.to_switch += d; return len(d)
+    """what of_01.Connection reads from / writes to.  `fault` = (k, spelling): the k-th write after the handshake fails — raises, or takes only part of the data"""
+    def __init__(self, p): self.p = p; self.fault = None; self.writes = 0; self.hit = False
+    def send(self, d):
+        if self.fault is not None:
+            self.writes += 1
+            if self.writes == self.fault[0]:
+                self.hit = True
+                sp = self.fault[1]
+                if sp.startswith("short"):
+                    j = int(sp[5:]); j = j if j >= 0 else max(0, len(d) + j)
+                    j = min(j, len(d)); self.p.to_switch += d[:j]; return j
+                raise make_exc(sp)
+        self.p.to_switch += d; return len(d)
     def recv(self, n): d = self.p.to_ctl[:n]; self.p.to_ctl = self.p.to_ctl[n:]; return d
     def shutdown(self, *a): pass
     def close(self): pass
@@ -184,6 +234,8 @@ class C11(Check):
         core.openflow.addListenerByName("PacketIn", lambda e: (self.pins.append(e.dpid), self.pin_data.append(bytes(e.data))))
         self._dpid = 0
         self._fcache = {}
+        self.live_deferred = None
+        self._options_dirty = False
         # exceptions that the switch's / controller's read paths and event dispatch contain are logged with a traceback (log.exception): collect
         # those records (and nothing below ERROR); a contained exception while a frame is processed is an observable of that arrival
         import logging
@@ -327,6 +379,7 @@ class C11(Check):
     class Node:
         def __init__(self, chk, idx, nports, bufs, base=0):
             chk._dpid += 1
+            self.chk = chk
             self.idx, self.dpid = idx, chk._dpid
             self.nports, self.base = nports, int(str(base))          # a port number built at run time, not a literal (HARDENING 3)
             self.pipe = Pipe()
@@ -336,8 +389,18 @@ class C11(Check):
                 self.sw.add_port(self.sw.generate_port(self.base + i, name="p%d" % i))
             self.ofc = chk.OFConnection(self.w); self.sw.set_connection(self.ofc)
             self.out = []
-            self.sw.addListener(chk.DpPacketOut, lambda e: self.out.append((self.logical(e.port.port_no), e.packet.pack())))
-            self.con = chk.of_01.Connection(CtlSock(self.pipe))
+            self.dp_fault = None; self.dp_sends = 0; self.dp_hit = False          # (k, spelling): the k-th physical send of this switch raises
+            def on_out(e):
+                item = (self.logical(e.port.port_no), e.packet.pack())
+                if self.dp_fault is not None:
+                    self.dp_sends += 1
+                    if self.dp_sends == self.dp_fault[0]:
+                        self.dp_hit = True
+                        raise make_exc(self.dp_fault[1])                          # this frame did not leave the port
+                self.out.append(item)
+            self.sw.addListener(chk.DpPacketOut, on_out)
+            self.csock = CtlSock(self.pipe)
+            self.con = chk.of_01.Connection(self.csock)
             self.pump()
         def logical(self, real):
             """logical number of an OpenFlow port number of this switch; numbers that are not its ports are kept apart (negative)"""
@@ -355,6 +418,8 @@ class C11(Check):
                     self.pipe.to_ctl += bytes(self.w.send_buf); self.w.send_buf = b""; moved = True
                 if self.pipe.to_ctl:
                     self.con.read(); moved = True
+                if not moved and self.chk.live_deferred is not None and self.chk.live_deferred.flush():
+                    moved = True                                                  # the socket is writable again: the deferred sender writes what it kept
 
     def table_summary(self, node):
         rows = []
